@@ -355,7 +355,9 @@ func (an *Analysis) populateTypes(pa *packages.Package) {
 }
 
 // flattenEmbedded replaces the embedded struct fields by the fields
-// of the embedded struct (recursively)
+// of the embedded struct (recursively).
+// As encoding/json does, an embedded struct whose 'json' tag gives it a name
+// (or excludes it with "-") is kept as a regular field.
 func (st *Struct) flattenEmbedded(done map[*Struct]bool) {
 	if done[st] {
 		return
@@ -364,7 +366,7 @@ func (st *Struct) flattenEmbedded(done map[*Struct]bool) {
 
 	var out []StructField
 	for _, field := range st.Fields {
-		if embedded, isStruct := field.Type.(*Struct); isStruct && field.Field.Embedded() {
+		if embedded, isStruct := field.Type.(*Struct); isStruct && field.Field.Embedded() && !field.hasJSONName() {
 			embedded.flattenEmbedded(done)
 			out = append(out, embedded.Fields...)
 		} else {
